@@ -2,7 +2,7 @@
    model M (c_file_source and parse_file on the text) and the specification S,
    and encodes the three answers.  Definitions only. *)
 From Coq Require Import ZArith String Ascii Bool List.
-From CBI Require Import Lib.Data Model.C05 Spec.C05 Spec.C05f.
+From CBI Require Import Lib.Data Model.C05 Spec.C05 Spec.C05f Spec.C05i.
 Import ListNotations.
 Local Open Scope string_scope.
 
@@ -41,7 +41,9 @@ Definition enc_spec (t : list ascii) : data :=
 Definition enc_raw (t : list ascii) : data :=
   let r := F_scan t in
   DList [of_list (fun l => DList [of_list of_nat (fst l); of_bool (snd l)]) (r_logical r);
-         of_bool (r_wf r); of_bool (r_c20 r); of_bool (r_c22 r); of_bool (ends_nl t)].
+         of_bool (r_wf r); of_bool (r_c20 r); of_bool (r_c22 r); of_bool (ends_nl t);
+         of_list (fun l => DList [of_list of_nat (fst l); of_bool (snd l)]) (iso_logical (iso_scan t));
+         of_bool (iso_wf (iso_scan t))].
 
 (* case: the text ; answer: [c_file_source ; parse_file ; S on physical lines ; S on the raw text] *)
 Definition run_C05 (d : data) : data :=
